@@ -393,6 +393,13 @@ func c10Nsx(c *Ctx, tp *tape.Tape, extra map[string]any) *Failure {
 			c.Count("cut_run_exit_0", 1)
 			continue
 		}
+		if nsxHasEmptyGroup(n) {
+			// Cut between 'remove' and 'add' of a group's addresses.  Whether
+			// a real manager lets an expression become empty could not be
+			// established offline (DESIGN §5 C04): such a state is not judged.
+			c.Count("cut_left_empty_group_not_judged", 1)
+			continue
+		}
 		n2 := n.Clone()
 		if f := nsxJudgeConverge(c, cs, n2, PanOpts{Front: "drc", Timeout: 60}, "C04", "resume-"); f != nil {
 			f.Extra = map[string]any{"cut": k}
@@ -445,4 +452,18 @@ func nsxSemantics(n *nsxdev.Node) string {
 	}
 	sort.Strings(g)
 	return strings.Join(l, "\n") + "\n--\n" + strings.Join(g, "\n")
+}
+
+func nsxHasEmptyGroup(n *nsxdev.Node) bool {
+	for _, o := range n.Groups {
+		ex, _ := o["expression"].([]any)
+		for _, e := range ex {
+			if em, ok := e.(map[string]any); ok {
+				if ia, ok := em["ip_addresses"].([]any); ok && len(ia) == 0 {
+					return true
+				}
+			}
+		}
+	}
+	return false
 }
